@@ -23,9 +23,14 @@ LEVEL_TEXT = ("Proof: the exact half-open semantics (bin k iff a0+k*h <= v < a0+
               "non-negative axis for CSEP_MW_BINS (kernel-evaluated threshold table + monotonicity), kernel-evaluated tables at "
               "every edge +-1..4 ulps for CSEP_MW_BINS, magnitude_bins(5.95,8.95,0.1) and the NZ region edge arrays, and for the "
               "past failures; cleaner_range returns exactly the nearest doubles of the decimal grid for all |S|+(n+1)*D <= 2^50, "
-              "m <= 22. Not proved in general: that the result exceeds the ideal bin only inside the documented band (checked by "
-              "the oracle and, for the shipped magnitude grid, by the kernel tables). Tied to the code by correspondence.")
-LEVEL_NOTE = ("Float theorems are about float64 points and float64 edges (default tolerance); float32 / int64 / tol= variants are "
+              "m <= 22. Proved for every float64 grid with 2 <= n <= 2^40 increasing edges within h/4 of a0+k*h, h >= 2^-1021, and every "
+              "float64 value with (n+1)*|a0|*eps + |v|*eps <= h/2: the result exceeds the ideal bin by at most one and only inside "
+              "the band (1+13u)((j+1)|a0|eps+|v|eps)+6u*j*h+2^-1073*h below the regular position (inside the oracle's band), hence "
+              "the model's answer is always in the allowed set (bin1dF_mem_allowed); bin1dF_safe (away from the band the float answer "
+              "is the exact regular-grid answer); every edge lands in its own bin; discretize = edge of the bin, rejects exactly the "
+              "out-of-range values, is idempotent. Tied to the code by correspondence (bit-exact on every run).")
+LEVEL_NOTE = ("Float theorems are about float64 points and float64 edges (default tolerance; the driver evaluates their hypotheses on "
+              "every float64 model case and the evidence reports the covered share); float32 / int64 / tol= variants are "
               "modelled bit-exactly and covered by correspondence and the direct oracle, not by general theorems. The number of "
               "decimals of repr(start), repr(h) is an input of the cleaner_range model. NaN, +-inf, |ints| >= 2^53 are outside "
               "the model; cleaner_range's fallback path (step that is not a short decimal) is only observed.")
@@ -45,6 +50,18 @@ THEOREMS = [
     "Bin1d.table_csep_mw_bins_open", "Bin1d.table_csep_mw_bins_closed", "Bin1d.table_magnitude_bins_595",
     "Bin1d.table_nz_region_edges", "Bin1d.table_collection_region_edges",
     "Bin1d.cleanerRange_exact", "Bin1d.test_cleaner_050", "Bin1d.test_cleaner_1em5",
+    # Properties/C02_Float.lean: the float64 formula leaves the ideal bin only inside the band
+    "Bin1d.bin1dF_cases", "Bin1d.bin1dF_upper", "Bin1d.bin1dF_upper_top", "Bin1d.bin1dF_mem_allowed",
+    "Bin1d.bin1dF_safe_band", "Bin1d.bin1dF_safe", "Bin1d.bin1dF_edge_own_bin",
+    "Bin1d.regularGridB_sound", "Bin1d.pointOKB_sound", "Bin1d.hyp_check_sound",
+    # Properties/C02_Discretize.lean
+    "Bin1d.discretize_arg_checks", "Bin1d.discretize_eq_edge_of_bin", "Bin1d.discretize_rejects_outside",
+    "Bin1d.discretize_idem", "Bin1d.discretize_idem_f64", "Bin1d.discretize_rejects_below_first",
+    "Bin1d.discretize_rejects_at_top",
+    # Properties/C02_Decimal.lean: decimal grids (cleaner_range output) meet the hypotheses; global lon/lat without tables
+    "Bin1d.decimalGrid_regular", "Bin1d.decimalGrid_mem_allowed", "Bin1d.decimalGrid_edge_own_bin",
+    "Bin1d.cleanerRange_bins_ok", "Bin1d.decimalGridOK_of_numeric", "Bin1d.globalLon_ok", "Bin1d.globalLat_ok",
+    "Bin1d.global_lon_edges", "Bin1d.global_lat_edges",
 ]
 TRUSTED = ["Lean 4.33 kernel", "axioms: propext, Classical.choice, Quot.sound at most",
            "Soft64.fl64/fl32 is IEEE-754 round-to-nearest-even and numpy + - * / floor on float64/float32 are that arithmetic "
@@ -191,6 +208,26 @@ def to_frac(pd, x):
     return Fraction(int(x)) if pd == "i64" else Fraction(float(x))
 
 
+def allowed_val(g, pd, tol, rc, x):
+    """allowed_exact for a value as the implementation sees it; +inf is 'at or above the last edge' (last bin when
+    open-ended, out of range in closed mode), -inf is below the first edge (NaN is outside the property and never generated)"""
+    if pd != "i64" and not numpy.isfinite(float(x)):
+        if float(x) > 0:
+            return {g.n - 1} if (rc or g.n == 1) else {-1}
+        return {-1}
+    return allowed_exact(g, pd, tol, rc, to_frac(pd, x))
+
+
+def in_model_domain(g, pd, x):
+    """Soft64 has no overflow / infinities: the model is asked only for finite values whose quotient (p-a0+tol)/(h-tol)
+    stays far below the float64 maximum; larger values (1e300 on a fine grid, the float maximum, +inf) go through the
+    oracle only"""
+    if pd == "i64":
+        return True
+    x = float(x)
+    return bool(numpy.isfinite(x)) and abs(x) < 1e290 * min(1.0, float(g.hF))
+
+
 def val_repr(pd, x):
     return str(int(x)) if pd == "i64" else repr(float(x))
 
@@ -211,6 +248,10 @@ class Ctx:
         self.model_values = 0
         self.fail_per_grid = 3
         self.gid = 0
+        self.hyp_total = 0          # float64 default-tolerance model values
+        self.hyp_covered = 0        # ... on which the hypotheses of the float theorems hold (driver op c02_hyp)
+        self.hyp_grids_irregular = 0
+        self.disc_calls = 0
 
 
 def check_values(ctx, g, values, tol, rc, tag, n_model):
@@ -256,10 +297,10 @@ def check_values(ctx, g, values, tol, rc, tag, n_model):
     sus = numpy.nonzero(susm)[0]
     nfail = 0
     for i in sus:
-        al = allowed_exact(g, pd, tol, rc, to_frac(pd, flat[i]))
+        al = allowed_val(g, pd, tol, rc, flat[i])
         if int(out[i]) not in al:
             if nfail < ctx.fail_per_grid:
-                k = bisect.bisect_right(g.F, to_frac(pd, flat[i])) - 1
+                k = int(ideal[i])
                 run.oracle_failure(dict(case0, p=[val_repr(pd, flat[i])]),
                                    f"bin1d_vec returned {int(out[i])}, the property allows {sorted(al)} "
                                    f"(largest edge <= v has index {k}, n={n}, v={val_repr(pd, flat[i])})")
@@ -271,6 +312,31 @@ def check_values(ctx, g, values, tol, rc, tag, n_model):
     run.case(dict(case0, p=[val_repr(pd, x) for x in flat[:4]], n_values=len(flat)), None)
     run.evaluations += len(flat) - 1
     on_edge = g.e64[numpy.clip(ideal, 0, n - 1)] == v64
+    with numpy.errstate(invalid="ignore", over="ignore"):
+        huge = ~numpy.isfinite(v64) | (numpy.abs(v64 - float(g.a0F)) >= 2.0 ** 62 * float(g.hF))
+    if huge.any():
+        run.count("huge_or_infinite_values", int(huge.sum()))
+        run.count("plus_infinity_values", int(numpy.isposinf(v64).sum()))
+        ctx.run.nontrivial.update(("huge", ctx.gid, float(x)) for x in v64[huge & (v64 > 0)][:8])
+    # open-ended mode: the answers are monotone in v over the whole value set (including the huge values); in closed
+    # mode up to the first out-of-range value at the top
+    # (checked on the non-negative values, where every float operation of the formula is monotone in v for every dtype /
+    # tol configuration — `bin1dF_mono_nonneg`; for negative v the point tolerance |v|*eps shrinks as v grows)
+    order = numpy.argsort(v64, kind="stable")
+    order = order[v64[order] >= 0]
+    if not rcm:    # closed mode: below the band under `top` (inside it -1 is an allowed answer)
+        with numpy.errstate(invalid="ignore", over="ignore"):
+            wtop = band_width_float(g, pd, tol, float(n), float(g.topF), v64[order])
+            order = order[v64[order] < float(g.topF) - 1.01 * wtop - 1e-9 * float(g.hF)]
+    so = out[order]
+    run.count("monotonicity_checked_values", len(so))
+    dec = numpy.nonzero(numpy.diff(so) < 0)[0]
+    if len(dec) and nfail == 0:
+        run.count("monotonicity_breaks")
+        vs = v64[order]
+        i = int(dec[0])
+        run.oracle_failure(dict(case0, p=[val_repr(pd, flat[order[i]]), val_repr(pd, flat[order[i + 1]])]),
+                           f"bin assignment is not monotone: v={vs[i]!r} -> {int(so[i])}, larger v={vs[i + 1]!r} -> {int(so[i + 1])}")
     run.count("value_on_edge", int(on_edge.sum()))
     run.count("below_first", int((ideal < 0).sum()))
     run.count("values_" + pd, len(flat))
@@ -298,7 +364,9 @@ def check_values(ctx, g, values, tol, rc, tag, n_model):
         if len(cand) > rest:
             cand = numpy.array(sorted(rng.sample(range(len(flat)), rest)))
         pick += list(cand)
-    pick = sorted(set(int(i) for i in pick))
+    pick = sorted(set(int(i) for i in pick if in_model_domain(g, pd, flat[i])))
+    if not pick:
+        return
     ps = [flat[i] for i in pick]
     tol_s = "none" if tol is None else frac(tol)
     bins_s = ",".join(frac(int(x) if g.bd == "i64" else float(x)) for x in g.bins)
@@ -306,6 +374,10 @@ def check_values(ctx, g, values, tol, rc, tag, n_model):
     qi = ctx.drv.ask(f"c02_bin1d {pd} {g.bd} {tol_s} {1 if rc else 0} {bins_s} {p_s}")
     ctx.pending.append(("bin1d", qi, case0, g, pd, tol, rc, ps, [int(out[i]) for i in pick]))
     ctx.model_values += len(ps)
+    if pd == "f64" and g.bd == "f64" and tol is None and n > 1:
+        # are the hypotheses of the float theorems (RegularF64Grid, PointOK) met by this grid and these values?
+        qh = ctx.drv.ask(f"c02_hyp {bins_s} {p_s}")
+        ctx.pending.append(("hyp", qh, case0, len(ps)))
     if len(ctx.pending) >= 40:
         flush(ctx)
 
@@ -339,6 +411,34 @@ def flush(ctx):
                                        f"({sorted(al_py)}) on {case0} p={val_repr(pd, x)}")
                 if im not in al:
                     run.mismatch(dict(case0, p=[val_repr(pd, x)]), im, t)
+        elif item[0] == "hyp":
+            _, qi, case0, cnt = item
+            res = outs[qi]
+            ctx.hyp_total += cnt
+            if res == "irregular":
+                ctx.hyp_grids_irregular += 1
+            elif set(res) <= set("01,"):
+                ctx.hyp_covered += res.count("1")
+            else:
+                raise RuntimeError(f"c02_hyp answered {res[:80]!r} on {case0}")
+        elif item[0] == "disc":
+            _, qi, case, impl, oracle_ok = item
+            res = outs[qi]
+            mod = res if res in ("csepexception", "valueerror", "indexerror", "unsupported", "bad-op") else \
+                ([] if res == "-" else [Fraction(t) for t in res.split(",")])
+            ctx.bit_total += 1
+            if mod == impl:
+                ctx.bitexact += 1
+            elif mod == "unsupported":
+                run.count("discretize_model_unsupported")
+            elif oracle_ok and ((isinstance(mod, list) and isinstance(impl, list) and len(mod) == len(impl)) or
+                                (case.get("may_raise") and not case.get("must_raise") and
+                                 all(isinstance(x, list) or x == "csepexception" for x in (mod, impl)))):
+                # both inside what the property allows (a band decision differs): loss of bit-exactness only
+                if len(ctx.bit_diff) < 5:
+                    ctx.bit_diff.append(dict(case, impl=str(impl)[:200], model=str(mod)[:200]))
+            else:
+                run.mismatch(case, str(impl)[:300], str(mod)[:300])
         elif item[0] == "cleaner":
             _, qi, case, impl = item
             res = outs[qi]
@@ -354,6 +454,157 @@ def flush(ctx):
             ctx.bit_total += 1
     ctx.pending = []
     ctx.drv = Driver()
+
+
+# ----------------------------------------------------------------------------- discretize
+def impl_discretize(data, bins, rc):
+    from csep.utils.calc import discretize
+    return discretize(data, bins, right_continuous=rc)
+
+
+def exc_tag(e):
+    from csep.core.exceptions import CSEPException
+    if isinstance(e, CSEPException):
+        return "csepexception"
+    if isinstance(e, ValueError):
+        return "valueerror"
+    if isinstance(e, IndexError):
+        return "indexerror"
+    return type(e).__name__
+
+
+def check_discretize(ctx, g, values, rc, tag, model=True):
+    """discretize(values, bins, rc): oracle (rejects exactly when some value is out of range — either way inside the
+    band —, else the edge of an allowed bin per value, dtype of the edges, shape of the data, idempotent) and
+    correspondence with Bin1d.discretizeF"""
+    run = ctx.run
+    values = numpy.asarray(values)
+    pd = dt_of(values)
+    flat = values.ravel()
+    if g.n < 2 or len(flat) == 0:
+        return
+    als = [allowed_val(g, pd, None, rc, x) for x in flat]
+    must = any(al == {-1} for al in als)
+    may = any(-1 in al for al in als)
+    case = dict(kind="disc", grid=g.spec, pd=pd, rc=bool(rc), tag=tag, p=[val_repr(pd, x) for x in flat],
+                shape=list(values.shape), may_raise=may, must_raise=must)
+    ctx.disc_calls += 1
+    run.case(dict(case, p=case["p"][:4], n_values=len(flat)), ("disc", ctx.disc_calls) if may else None)
+    run.evaluations += len(flat) - 1
+    run.count("discretize_calls")
+    run.count("discretize_values", len(flat))
+    oracle_ok = True
+
+    def fail(msg):
+        nonlocal oracle_ok
+        oracle_ok = False
+        run.oracle_failure(case, msg)
+
+    try:
+        out = impl_discretize(values, g.bins, rc)
+        impl = None
+    except Exception as e:
+        out, impl = None, exc_tag(e)
+    if impl is not None:
+        run.count("discretize_raised_" + impl)
+        if impl != "csepexception":
+            fail(f"discretize raised {impl} on an increasing equally spaced grid")
+        elif not may:
+            fail("discretize raised CSEPException although every value lies inside the bins")
+    else:
+        out = numpy.asarray(out)
+        if must:
+            bad = next(val_repr(pd, x) for x, al in zip(flat, als) if al == {-1})
+            fail(f"discretize accepted the out-of-range value {bad}")
+        elif out.shape != values.shape or out.dtype != g.bins.dtype:
+            fail(f"discretize returned shape/dtype {out.shape}/{out.dtype} for data {values.shape}, edges {g.bins.dtype}")
+        else:
+            of = out.ravel()
+            for x, y, al in zip(flat, of, als):
+                if not any(a >= 0 and g.bins[a] == y for a in al):
+                    fail(f"discretize mapped {val_repr(pd, x)} to {y!r}; the property allows the left edge of bin(s) {sorted(al)}")
+                    break
+            else:
+                try:
+                    out2 = numpy.asarray(impl_discretize(out, g.bins, rc))
+                    if not (out2.shape == out.shape and numpy.array_equal(out2, out)):
+                        k = int(numpy.nonzero(out2.ravel() != of)[0][0]) if out2.shape == out.shape else 0
+                        fail(f"discretize is not idempotent: edge {of[k]!r} is mapped to {out2.ravel()[k] if out2.shape == out.shape else out2.shape!r}")
+                except Exception as e:
+                    fail(f"discretize(discretize(x)) raised {exc_tag(e)}: an edge is rejected by its own grid")
+                run.count("discretize_idempotence_checked")
+            impl = [Fraction(int(y)) if g.bd == "i64" else Fraction(float(y)) for y in of]
+    if not model or impl is None or (isinstance(impl, str) and impl not in ("csepexception",)) or \
+            not all(in_model_domain(g, pd, x) for x in flat):
+        return
+    bins_s = ",".join(frac(int(x) if g.bd == "i64" else float(x)) for x in g.bins)
+    p_s = ",".join(frac(int(x) if pd == "i64" else float(x)) for x in flat)
+    qi = ctx.drv.ask(f"c02_discretize {pd} {g.bd} {1 if rc else 0} {bins_s} {p_s}")
+    ctx.pending.append(("disc", qi, case, impl, oracle_ok))
+    if len(ctx.pending) >= 40:
+        flush(ctx)
+
+
+def discretize_on_grid(ctx, g, vals, rc):
+    """value sets for discretize from the edge-directed values of a grid: all inside (incl. on-edge and in-band values),
+    then the same plus one value below the first edge / at or next to the upper edge of the last bin"""
+    rng = ctx.rng
+    vals = numpy.asarray(vals)
+    pd = dt_of(vals)
+    v64 = vals.astype(numpy.float64)
+    n = g.n
+    rcm = rc or n == 1
+    h = float(g.hF)
+    ideal = numpy.searchsorted(g.e64, v64, side="right") - 1
+    inside = ideal >= 0
+    if not rcm:
+        inside &= v64 < float(g.topF) - 1e-3 * h
+    ii = numpy.nonzero(inside)[0]
+    if len(ii) == 0:
+        return
+    on_edge = ii[g.e64[numpy.clip(ideal[ii], 0, n - 1)] == v64[ii]]
+    pick = list(on_edge[:30]) + [int(i) for i in rng.sample(list(ii), min(len(ii), 70))]
+    pick = sorted(set(int(i) for i in pick))
+    sel = vals[pick]
+    if ctx.disc_calls % 5 == 4 and len(sel) >= 4:
+        m = len(sel) // 2
+        sel = sel[:2 * m].reshape(2, m)
+    check_discretize(ctx, g, sel, rc, "inside")
+    base = vals[pick[:5]]
+    oo = numpy.nonzero(~inside)[0]
+    if len(oo):
+        for i in rng.sample(list(oo), min(3, len(oo))):
+            check_discretize(ctx, g, numpy.concatenate([base, vals[i:i + 1]]), rc, "one-outside")
+    if ctx.disc_calls % 7 == 0:
+        check_discretize(ctx, g, vals[pick[0]], rc, "0-d")     # 0-d array input
+
+
+def discretize_arg_checks(ctx):
+    """argument checks of discretize (calc.py:45-49) against the model; a single edge is only observed"""
+    run = ctx.run
+    d = Driver()
+    for bins, data, expect in (([], [1.0], "valueerror"), ([2.0, 1.0], [1.0], "valueerror"),
+                               ([2.0, 1.0, 3.0], [2.5], "valueerror")):
+        try:
+            impl_discretize(data, bins, False)
+            impl = "returned"
+        except Exception as e:
+            impl = exc_tag(e)
+        run.evaluations += 1
+        d.ask(f"c02_discretize f64 f64 0 {flist(bins)} {flist(data)}")
+        case = dict(kind="disc-args", bins=[repr(x) for x in bins], p=[repr(x) for x in data])
+        if impl != expect:
+            run.oracle_failure(case, f"discretize with {'empty' if not bins else 'decreasing'} edges: {impl}, ValueError expected")
+        ctx.pending_args = getattr(ctx, "pending_args", []) + [(case, impl)]
+    for (case, impl), res in zip(ctx.pending_args, d.run()):
+        if res != impl:
+            run.mismatch(case, impl, res)
+    ctx.pending_args = []
+    try:
+        out = impl_discretize([1.5], [1.0], False)
+        run.extra["discretize_single_edge"] = "returns " + repr(numpy.asarray(out).tolist())
+    except Exception as e:
+        run.extra["discretize_single_edge"] = "raises " + exc_tag(e) + " (bin1d_vec itself accepts a single edge; observed, see notes)"
 
 
 # ----------------------------------------------------------------------------- grids
@@ -443,6 +694,12 @@ def values_around(g, rng, idxs, pd, dense):
     else:
         extra = [e[0] - 1.0, e[0] - 1e-9, e[0] + 0.5, e[0] + 1.0, e[0] + 1.5, e[0] + 1e9]
     base = numpy.concatenate([pts, numpy.array(extra[:3], dtype=numpy.float64)])
+    # very large finite values and +inf: fractional index far beyond the int64 range ("every value at or above the last
+    # edge goes to the last bin" / closed mode: out of range); very negative finite values are below the first edge
+    big = [e[0] + 2.0 ** 62 * h, e[0] + 2.0 ** 63 * h, e[0] + 2.0 ** 64 * h * 1.5, 1e17, 1e18, 1e19, 1e25, 1e300,
+           float(numpy.finfo(numpy.float64).max), float("inf"), -1e18, -1e19, -1e300]
+    big32 = [1e18, 1e19, 2.0 ** 63 * h, 1e30, float(numpy.finfo(numpy.float32).max), float("inf"), -1e19, -1e30]
+    extra = extra + (big32 if pd == "f32" else big)
     if pd == "i64":
         c = numpy.concatenate([numpy.floor(base), numpy.ceil(base), numpy.floor(base) - 1, numpy.ceil(base) + 1,
                                numpy.floor(pts + h / 2), numpy.array(extra, dtype=numpy.float64).round()])
@@ -465,7 +722,7 @@ def values_around(g, rng, idxs, pd, dense):
     return numpy.concatenate(out)
 
 
-def run_grid(ctx, g, modes=(False, True), pds=("f64",), tol=None, n_model=120, tag="gen"):
+def run_grid(ctx, g, modes=(False, True), pds=("f64",), tol=None, n_model=120, tag="gen", disc=True):
     run, rng = ctx.run, ctx.rng
     n = g.n
     if n == 0:
@@ -480,6 +737,8 @@ def run_grid(ctx, g, modes=(False, True), pds=("f64",), tol=None, n_model=120, t
             if n <= 400:
                 vals = values_around(g, rng, all_idx, pd, dense=True)
                 check_values(ctx, g, vals, tol, rc, tag, n_model)
+                if tol is None and n > 1 and disc:
+                    discretize_on_grid(ctx, g, vals, rc)
             else:
                 # oracle pass over every edge, thin offsets; model pass on a directed sample with all offsets
                 vals = values_around(g, rng, all_idx, pd, dense=False)
@@ -488,6 +747,8 @@ def run_grid(ctx, g, modes=(False, True), pds=("f64",), tol=None, n_model=120, t
                                                       numpy.array(rng.sample(range(n), 12))]))
                 vals = values_around(g, rng, sel, pd, dense=True)
                 check_values(ctx, g, vals, tol, rc, tag + "-sample", n_model)
+                if tol is None and disc and n <= 4000:
+                    discretize_on_grid(ctx, g, vals, rc)
 
 
 def scalar_checks(ctx, g):
@@ -504,7 +765,8 @@ def scalar_checks(ctx, g):
 def _scalar_checks(ctx, g):
     run, rng = ctx.run, ctx.rng
     e = g.e64
-    vs = [float(e[rng.randrange(g.n)]), float(e[0]) - 0.5 * float(g.hF), float(e[-1]), float(e[rng.randrange(g.n)]) + 0.25 * float(g.hF)]
+    vs = [float(e[rng.randrange(g.n)]), float(e[0]) - 0.5 * float(g.hF), float(e[-1]), float(e[rng.randrange(g.n)]) + 0.25 * float(g.hF),
+          float(e[0]) + 2.0 ** 64 * float(g.hF), 1e19, 1e300, float(numpy.finfo(numpy.float64).max), float("inf")]
     for rc in (False, True):
         ref = impl_bin1d(numpy.array(vs), g.bins, None, rc)
         for v, r in zip(vs, ref):
@@ -696,6 +958,15 @@ def run_case(ctx, case):
     elif kind == "cleaner":
         check_cleaner(ctx, case["S"], case["D"], case["m"], case["cnt"], case.get("off", 0),
                       fn=case.get("fn", "cleaner_range"), tag=case.get("tag", "corpus"), asint=case.get("asint", False))
+    elif kind == "disc":
+        g = build_grid(case["grid"])
+        pd = case.get("pd", "f64")
+        vals = numpy.array([int(x) if pd == "i64" else float(x) for x in case["p"]], dtype=NPDT[pd])
+        if case.get("shape") is not None:
+            vals = vals.reshape(case["shape"])
+        check_discretize(ctx, g, vals, bool(case.get("rc", False)), case.get("tag", "corpus"))
+    elif kind == "disc-args":
+        discretize_arg_checks(ctx)
     elif kind in ("discretize", "api"):
         api_checks(ctx)
     else:
@@ -732,6 +1003,23 @@ def tables_match_source(ctx):
             run.mismatch(dict(kind="table", name=k), f"{len(here)} edges shipped", f"{len(lean)} edges in Bin1dTables.lean "
                          f"(regenerate with tools/gen_c02_tables.py)")
     run.extra["kernel_tables_match_shipped_arrays"] = True
+    # the grids of Properties/C02_Decimal.lean (`globalLonEdges`, `globalLatEdges`: decimalGrid S D m n) are the arrays
+    # regions.py:282-283 hands to CartesianGrid2D for global_region(0.1)
+    from csep.utils.calc import cleaner_range
+    dec = dict(globalLonEdges=((-1800, 1, 1, 3600), cleaner_range(-180.0, 180.0, 0.1)[:-1]),
+               globalLatEdges=((-900, 1, 1, 1800), cleaner_range(-90, 90.0, 0.1)[:-1]))
+    d = Driver()
+    for k, ((S, D, m, n), _) in dec.items():
+        d.ask(f"c02_decgrid {S} {D} {m} {n}")
+    for (k, (_, arr)), res in zip(dec.items(), d.run()):
+        lean = [Fraction(t) for t in res.split(",")]
+        here = [Fraction(float(x)) for x in arr]
+        run.evaluations += 1
+        if lean != here:
+            run.mismatch(dict(kind="table", name=k), f"{len(here)} edges from cleaner_range (regions.py:282-283)",
+                         f"Bin1d.{k} of Properties/C02_Decimal.lean differs (theorems global_lon_edges / global_lat_edges "
+                         f"no longer speak about the shipped arrays)")
+    run.extra["global_lonlat_theorem_grids_match_shipped_arrays"] = True
 
 
 def decreasing_grid_raises(ctx):
@@ -756,6 +1044,7 @@ def run(run, rng, tier):
     validate_soft64(run, rng, 500 if quick else 4000)
     run_corpus(ctx)
     decreasing_grid_raises(ctx)
+    discretize_arg_checks(ctx)
     tables_match_source(ctx)
     nmax = 20000
     # shipped grids
@@ -856,6 +1145,10 @@ def run(run, rng, tier):
     run.extra["bitexact_agreement"] = f"{ctx.bitexact}/{ctx.bit_total}"
     run.extra["bitexact_differences"] = ctx.bit_diff
     run.extra["model_values"] = ctx.model_values
+    run.extra["float_theorem_hypotheses_hold"] = (f"{ctx.hyp_covered}/{ctx.hyp_total} float64 default-tolerance model values "
+                                                  f"(RegularF64Grid and PointOK evaluated by the driver; {ctx.hyp_grids_irregular} "
+                                                  f"calls on grids outside RegularF64Grid)")
+    run.extra["discretize_calls"] = ctx.disc_calls
     run.assumptions.append("values and edges are finite; |integers| < 2^52; grids satisfy the regularity premise "
                            "|e_j-(a0+j*h)| <= j*eps*(|a0|+|e_1|)+5*eps*|e_j| (others are skipped and counted)")
     if ctx.bit_total and ctx.bitexact != ctx.bit_total:
